@@ -241,19 +241,76 @@ theorem hdr_line_source (acc : HMap) (kv : String × String) :
 /-- Scan replaces the accumulator by an empty map when it wraps to the next pass -/
 theorem hdr_wrap_source : Gen.C14Hdr.uriWrapAcc = some [] ∧ Gen.C14Hdr.uripostWrapAcc = some [] := ⟨rfl, rfl⟩
 
-/-- one round of the model's `Scan` loop, written with the regenerated pieces only (uri; uripost's pieces are the same
-by the lemmas above) -/
+/-! the pass / limit / end-of-ammo logic of the four `Scan` functions -/
+
+/-- uri, uripost and raw end a pass in the same way -/
+theorem eof_same : Gen.C14Hdr.uripostEof = Gen.C14Hdr.uriEof ∧ Gen.C14Hdr.rawEof = Gen.C14Hdr.uriEof ∧
+    Gen.C14Hdr.uripostScanLimit = Gen.C14Hdr.uriScanLimit ∧ Gen.C14Hdr.rawScanLimit = Gen.C14Hdr.uriScanLimit ∧
+    Gen.C14Hdr.jsonScanLimit = Gen.C14Hdr.uriScanLimit := ⟨rfl, rfl, rfl, rfl, rfl⟩
+
+/-- `Model.C08.scanStream`: the limit check that opens every `Scan` is the regenerated one -/
+theorem scanStream_limit_source (style : Style) (b : Bounds) (n : Nat) (d : Dec) :
+    scanStream style b n d =
+      if Gen.C14Hdr.uriScanLimit b.limit d.ammoNum then (.errLimit, d) else scanLoop style b.passes n 2 d := by
+  unfold scanStream Gen.C14Hdr.uriScanLimit
+  by_cases h : b.limit ≠ 0 ∧ b.limit ≤ d.ammoNum
+  · simp [h]
+  · have h' : ¬ (¬ b.limit = 0 ∧ b.limit ≤ d.ammoNum) := h
+    simp [h']
+
+/-- one round of the loop of the uri / uripost / raw `Scan` of `Model.C08`, written with the regenerated end-of-file block -/
+theorem scanLoop_eof_source (passes n fuel : Nat) (d : Dec) :
+    scanLoop .eofCheck passes n (fuel + 1) d =
+      if d.pos < n then (.ammo d.pos, { d with pos := d.pos + 1, ammoNum := d.ammoNum + 1 })
+      else match Gen.C14Hdr.uriEof passes d.ammoNum d.passNum with
+        | .ret r pn => (r, { d with passNum := pn })
+        | .again pn => scanLoop .eofCheck passes n fuel { d with passNum := pn, pos := 0 } := by
+  conv => lhs; unfold scanLoop
+  unfold Gen.C14Hdr.uriEof
+  by_cases h1 : d.pos < n
+  · simp [h1]
+  · by_cases h2 : ¬ passes = 0 ∧ passes ≤ d.passNum + 1
+    · simp [h1, h2]
+    · by_cases h3 : d.ammoNum = 0 <;> simp [h1, h2, h3]
+
+/-- … and of the http/json stream decoder, with the regenerated top check and end-of-file block -/
+theorem scanLoop_top_source (passes n fuel : Nat) (d : Dec) :
+    scanLoop .topCheck passes n (fuel + 1) d =
+      if Gen.C14Hdr.jsonTopCheck passes d.passNum then (.errPass, d)
+      else if d.pos < n then (.ammo d.pos, { d with pos := d.pos + 1, ammoNum := d.ammoNum + 1 })
+      else match Gen.C14Hdr.jsonEof passes d.ammoNum d.passNum with
+        | .ret r pn => (r, { d with passNum := pn })
+        | .again pn => scanLoop .topCheck passes n fuel { d with pos := 0, passNum := pn } := by
+  conv => lhs; unfold scanLoop
+  unfold Gen.C14Hdr.jsonTopCheck Gen.C14Hdr.jsonEof
+  by_cases h0 : ¬ passes = 0 ∧ passes ≤ d.passNum
+  · simp [h0]
+  · by_cases h1 : d.pos < n
+    · simp [h0, h1]
+    · by_cases h3 : d.ammoNum = 0
+      · cases d; simp_all
+      · simp [h0, h1, h3]
+
+/-- one round of the model's uri / uripost `Scan` WITH the accumulator, written with the regenerated pieces only -/
 theorem scanLines_source (s : Source) (passes fuel : Nat) (d : LDec) :
     scanLinesLoop s passes (fuel + 1) d =
       (let acc := (s.block d.pos).foldl (fun a kv => Gen.C14Hdr.uriHeaderLine a kv.1 kv.2) d.acc
        if d.pos < s.n then
          (.ammo d.pos, { d with pos := d.pos + 1, acc := acc, ammoNum := d.ammoNum + 1,
                                  last := Gen.C14Hdr.uriEntryHeader acc (cfgMap s.ch) })
-       else
-         let d := { d with acc := acc, passNum := d.passNum + 1 }
-         if passes ≠ 0 ∧ passes ≤ d.passNum then (.errPass, d)
-         else if d.ammoNum = 0 then (.errNoAmmo, d)
-         else scanLinesLoop s passes fuel { d with pos := 0, acc := Gen.C14Hdr.uriWrapAcc.getD d.acc }) := rfl
+       else match Gen.C14Hdr.uriEof passes d.ammoNum d.passNum with
+         | .ret r pn => (r, { d with acc := acc, passNum := pn })
+         | .again pn => scanLinesLoop s passes fuel { d with passNum := pn, pos := 0, acc := Gen.C14Hdr.uriWrapAcc.getD acc }) := by
+  have hacc : (s.block d.pos).foldl (fun a kv => Gen.C14Hdr.uriHeaderLine a kv.1 kv.2) d.acc
+      = (s.block d.pos).foldl HMap.setH d.acc := rfl
+  simp only [hacc]
+  conv => lhs; unfold scanLinesLoop
+  unfold Gen.C14Hdr.uriEof
+  by_cases h1 : d.pos < s.n
+  · simp [h1, Gen.C14Hdr.uriEntryHeader, mergeMissing]
+  · by_cases h2 : ¬ passes = 0 ∧ passes ≤ d.passNum + 1
+    · simp [h1, h2]
+    · by_cases h3 : d.ammoNum = 0 <;> simp [h1, h2, h3, Gen.C14Hdr.uriWrapAcc]
 
 /-- http/json: the option, the entry's own headers Set over it -/
 theorem hdr_json_source (s : Source) (i : Nat) : hdrJson s i = Gen.C14Hdr.jsonEntryHeader (cfgMap s.ch) (s.block i) := rfl
